@@ -687,8 +687,17 @@ func (c *Ctx) dateValueOrigin(v ssa.Value, depth int) string {
 			why = w
 		}
 		return why
-	case *ssa.Field, *ssa.ChangeType:
+	case *ssa.Field:
 		return "a field/copy of an existing Date"
+	case *ssa.ChangeType:
+		// a conversion from a structurally identical type builds a Date out of components nobody validated
+		// (Date(struct{year int32; month, day uint8}{…})): only a conversion of something that already is a Date counts
+		if types.Identical(x.X.Type(), x.Type()) {
+			return c.dateValueOrigin(x.X, depth+1)
+		}
+		return ""
+	case *ssa.MakeInterface, *ssa.TypeAssert:
+		return ""
 	}
 	return ""
 }
